@@ -844,6 +844,29 @@ def tr_frames(E, v, o, k=None):
     return z3.And(n == upto, z3.ForAll([j], z3.Implies(z3.And(0 <= j, j < upto), z3.Select(cols[0], j) == want)))
 
 
+def tr_slices(E, v, o):
+    """the property's clause at the top level: the frames are, in order, the z slices at EVERY voxel centre  box_lo_z + (k + 1/2) res_z  that lies
+    below the top of the box handed to _get_samplers, each sampled over the x / y range of that box from half a voxel inside its lower corner
+    (follows from _get_samplers' postconditions at the call; stated here so that the function the property observes carries it)"""
+    p = E.ghost.get("samplers_result")
+    cs = calls(E, "ToImageStack._get_samplers")
+    if p is None or len(cs) != 1:
+        return False
+    lo = [to_z3(t, "real") for t in cs[0]["coord_min"].items]
+    hi = [to_z3(t, "real") for t in cs[0]["coord_max"].items]
+    st = res_of(v)
+    cols, nf = lview(v["result"])
+    n = zint(p.n)
+    j = z3.Int(fresh_name("j"))
+    ref = z3.Select(p.cols[0], j)
+    centre = lo[2] + st[2] / 2 + z3.ToReal(j) * st[2]
+    return z3.And(nf == n,
+                  z3.ForAll([j], z3.Implies(j >= 0, (j < n) == (centre < hi[2]))),
+                  z3.ForAll([j], z3.Implies(z3.And(0 <= j, j < n), z3.And(SP[2](ref) == centre, SP[5](ref) == centre + st[2] - EPS,
+                                                                           SP[0](ref) == lo[0] + st[0] / 2, SP[1](ref) == lo[1] + st[1] / 2, SP[3](ref) == hi[0], SP[4](ref) == hi[1],
+                                                                           SP[6](ref) == st[0], SP[7](ref) == st[1], SP[8](ref) == st[2]))))
+
+
 # --------------------------------------------------------------------------- _get_scene (traverse client rule)
 # Whole-scene statement: the scene's object list is in one-to-one correspondence with the (parent, child) edges of the tree --
 # ghost `at` (child node -> position of its edge's object) and `who` (position -> child node) are mutually inverse -- and the
@@ -1134,6 +1157,7 @@ def reg_transform(R):
             ("one-scene-built-from-this-tree", tr_scene),
             ("samplers-requested-once-for-that-box-with-the-default-half-voxel-offset", tr_samplers_call),
             ("one-uint8-frame-per-z-slice-in-order-red-channel-times-255", tr_frames),
+            ("one-slice-for-every-voxel-centre-below-the-box-top-in-order-each-over-the-x,y-range-of-the-box", tr_slices),
         ],
         notes="tree of symbolic size n >= 1; the frame loop is cut by an invariant over the generator's symbolic yield list",
     )
